@@ -141,7 +141,8 @@ Proof.
                              (map (mro_of w) (cd_bases d) ++ [cd_bases d]))).
   { unfold compute_mro. rewrite E1. f_equal. f_equal. f_equal. apply map_ext. intro b. unfold mro_of, get_class. rewrite E1. reflexivity. }
   rewrite Emro in H.
-  destruct (c3_merge _ _) as [rest|] eqn:Ec; cbn [option_map] in H; [|discriminate].
+  destruct (c3_merge _ _) as [rest|] eqn:Ec; cbn [option_map] in H;
+    [|match type of H with context [if ?b then ?x else ?y] => destruct (if b then x else y) end; discriminate].
   split; [|split; [reflexivity|]].
   { destruct (cd_dbc d || existsb _ (cd_bases d)).
     - destruct (collapse_invariants w1 _ LInv) as [wa i1]. destruct (collapse_invariants wa _ LCall) as [wb i2].
